@@ -167,6 +167,10 @@ func main() {
 	cx.Seed = uint64(s)
 	cx.Start = time.Now()
 	cx.EvPath = filepath.Join(cx.Verif, "evidence", cx.Prop+".json")
+	if d := os.Getenv("VERIF_EVIDENCE_DIR"); d != "" {
+		// experiments (mutants, seeded changes, clones of /repo) must not overwrite the evidence of the registered checks
+		cx.EvPath = filepath.Join(d, cx.Prop+".json")
+	}
 	cx.knownHit = map[string]bool{}
 	cx.Budgets = budgetFor(40, 40)
 	if b, err := os.ReadFile(cx.SeamsPath); err == nil {
